@@ -152,6 +152,12 @@ class PoolRun:
                     return 'stop'
                 result = self.rm.reserve_resources(self.shared[key])
                 kind = 'reserve'
+            elif kind == 'reinit':
+                # the manager is initialised once more (by hand before the first run, then by System.simulate(); or
+                # handed to a second System): pools, usage and reservations stay what they are
+                self.rm.initialize(self.env)
+                self.sh.count('managers_initialised_again_with_reservations_out' if any(self.m.hold) else 'managers_initialised_again')
+                kind = 'noop'
             elif kind == 'scratch_manager':
                 # another pool manager of the user's own, with pools of the same names filled to the brim, lives next
                 # to this one: nothing here may change
@@ -358,7 +364,7 @@ def random_sequence(rng):
     for _ in range(rng.randint(6, 40)):
         x = rng.random()
         if x < 0.03:
-            seq.append(('scratch_manager',))
+            seq.append(('scratch_manager',) if rng.random() < 0.5 else ('reinit',))
             continue
         if x < 0.22:
             amt = rng.choice(grid) * rng.choice([1, 1, 1, -1, -1, 0])
